@@ -7,7 +7,9 @@ land on a point left unchanged by BOTH members when the user's constraints are i
 -/
 import MysticVerif.Proofs.Solver
 import MysticVerif.Proofs.NelderMead
+import MysticVerif.Proofs.PowellS
 import MysticVerif.Props.C17
+import MysticVerif.Props.C01
 
 namespace MysticVerif.C03
 open MysticVerif.Solver
@@ -67,5 +69,46 @@ theorem K_common_fixpoint {D : Type} [BEq X] [LawfulBEq X] (cons bnd : X → X)
 /-- non-vacuity of `K_common_fixpoint`: pin-to-3 and clip-to-[0,2] conflict-free variant on `Int` -/
 example : (Comb.and_ (fun i (v : Int) => if i = 0 then some (max v 1) else some (min (max v 0) 2))
     (fun (d : Int) _ => d) 2 20 (-5) []).1 = .success 1 1 2 := by decide
+
+/-! ## Powell on the decorated objective (any line-search oracle) -/
+open MysticVerif.PowellS
+
+/-- **Powell**: every point at which the user's cost is evaluated is left unchanged by the constraints -/
+theorem pw_evaluations_constrained [Sub R] [Mul R] [LinearOrder E] (o : Obj (Pt R) E) (h : Hyp o) (c : PwCfg R E)
+    (ls : Nat → Pt R → Pt R → LsRec R) (record : Bool) (x0 : Pt R) (direc : List (Pt R)) (hd : direc ≠ []) (n : Nat) :
+    ∀ p ∈ (reach o c ls record x0 direc n).log, o.K p.1 = p.1 := by
+  intro p hp
+  exact ((reach_inv h c ls record x0 direc hd n).logOK p hp).2.1
+
+/-- **Powell, reported result**: wherever the run is stopped (any `_Step` boundary) the reported solution satisfies
+the constraints and a finite reported energy is the energy of that constrained point -/
+theorem pw_reported_constrained [Sub R] [Mul R] [LinearOrder E] (o : Obj (Pt R) E) (h : Hyp o) (c : PwCfg R E)
+    (ls : Nat → Pt R → Pt R → LsRec R) (record : Bool) (x0 : Pt R) (direc : List (Pt R)) (hd : direc ≠ []) (n : Nat)
+    (hfin : (reach o c ls record x0 direc n).fval ≠ o.top) :
+    let s := reach o c ls record x0 direc n
+    o.K s.x = s.x ∧ s.fval = o.add (o.raw s.x) (o.pen s.x) := by
+  intro s
+  have g := (reach_inv h c ls record x0 direc hd n).best hfin
+  exact ⟨g.2.2.1, g.1⟩
+
+/-- **Powell, intermediate step records (partial).** Every record of the step monitor carries the energy of its
+CONSTRAINED image, which was evaluated.  The record itself is constrained unless the extrapolation line search was
+taken in that iteration: the code does not re-apply the constraints there (`# x = asarray(constraints(x))` is
+commented out, scipy_optimize.py l.711) - `pw_step_record_unconstrained_witness`.  The reported solution is not
+affected: the direction loop that follows in the same `_Step` constrains it (`pw_reported_constrained`). -/
+theorem pw_step_record_partial [Sub R] [Mul R] [LinearOrder E] (o : Obj (Pt R) E) (h : Hyp o) (c : PwCfg R E)
+    (ls : Nat → Pt R → Pt R → LsRec R) (record : Bool) (x0 : Pt R) (direc : List (Pt R)) (hd : direc ≠ []) (n : Nat) :
+    ∀ p ∈ (reach o c ls record x0 direc n).stepLog, p.2 ≠ o.top →
+      p.2 = o.energy (o.K p.1) ∧ (o.K p.1, o.raw (o.K p.1)) ∈ (reach o c ls record x0 direc n).log := by
+  intro p hp hne
+  have g := (reach_inv h c ls record x0 direc hd n).recs p hp hne
+  exact ⟨g.1, g.2.1⟩
+
+/-- the record written after an extrapolation line search violates the constraints (one dimension, cost `x^2`,
+constraints `x ↦ max x 1`): the step monitor holds `([-1], 1)`, `K [-1] = [1]` -/
+theorem pw_step_record_unconstrained_witness :
+    ([-1], 1) ∈ (reach C01.pwObj C01.pwCfg C01.pwLs true [5] [[-1]] 1).stepLog ∧ C01.pwObj.K [-1] ≠ [-1] ∧
+      C01.pwObj.K (reach C01.pwObj C01.pwCfg C01.pwLs true [5] [[-1]] 1).x = (reach C01.pwObj C01.pwCfg C01.pwLs true [5] [[-1]] 1).x := by
+  decide
 
 end MysticVerif.C03
